@@ -410,6 +410,74 @@ func c25(c *core.Ctx) {
 		rP.Bad(pkgV2+":block-writes", token.NoPos, "no block writes found in the storage writer")
 	}
 
+	rPC := c.Rule("C25.poscache", "a writer field that caches the append offset (it is used as the offset of a Seek(..., io.SeekStart)) is restored by every function that truncates the file for a rollback: otherwise the cached offset runs ahead of the real end of file after a failed block write and later blocks are written behind a hole", 1)
+	{
+		_, wst := p.StructOf(pkgV2, "FileWriter")
+		wf := map[*types.Var]bool{}
+		for _, f := range core.StructFields(wst) {
+			if b, ok := f.Type().Underlying().(*types.Basic); ok && b.Info()&types.IsInteger != 0 {
+				wf[f] = true
+			}
+		}
+		cached := map[*types.Var]token.Pos{}
+		for _, f := range p.FuncsIn(pkgV2) {
+			if f.Decl.Body == nil {
+				continue
+			}
+			fi := f.Info()
+			core.Calls(f.Decl.Body, true, func(call *ast.CallExpr) {
+				if !core.IsCallTo(fi, call, "os.File.Seek") || len(call.Args) != 2 {
+					return
+				}
+				if k, ok := core.ObjOf(fi, call.Args[1]).(*types.Const); !ok || k.Name() != "SeekStart" {
+					return
+				}
+				ast.Inspect(call.Args[0], func(x ast.Node) bool {
+					if sel, ok := x.(*ast.SelectorExpr); ok {
+						if fv := core.FieldOf(fi, sel); fv != nil && wf[fv] {
+							cached[fv] = call.Pos()
+						}
+					}
+					return true
+				})
+			})
+		}
+		if len(cached) == 0 {
+			rPC.Ok(pkgV2+".FileWriter:no-cached-append-offset", token.NoPos, "append position always taken from the file (Seek current / end)")
+		}
+		for fv, pos := range cached {
+			// every rollback (a function of the writer that truncates the file and is called from a block writer's failure path)
+			n := 0
+			for _, f := range p.FuncsIn(pkgV2) {
+				if f.Decl.Body == nil || f.Decl.Recv == nil {
+					continue
+				}
+				fi := f.Info()
+				trunc := false
+				core.Calls(f.Decl.Body, false, func(call *ast.CallExpr) {
+					if core.IsCallTo(fi, call, "os.File.Truncate") {
+						trunc = true
+					}
+				})
+				if !trunc || f.Obj.Name() == "openExistingFile" {
+					continue
+				}
+				n++
+				c.Touch(f)
+				restored := false
+				for _, a := range core.Accesses(fi, f.Decl.Body, map[*types.Var]bool{fv: true}, false) {
+					if a.Write && (a.Form == "assign" || a.Form == "store") {
+						restored = true
+					}
+				}
+				rPC.Check(restored, f.Key+":restores:"+fv.Name(), pos, "cached offset restored with the truncation", "FileWriter."+fv.Name()+" positions later appends (Seek(fw."+fv.Name()+", SeekStart)) but "+f.Obj.Name()+" truncates the file without restoring it: after a partial block write the cached offset is ahead of the end of file, the block after next lands behind a hole of zero bytes and the file no longer loads")
+			}
+			if n == 0 {
+				rPC.Ok(pkgV2+".FileWriter."+fv.Name()+":no-rollback-function", pos, "no truncating rollback exists")
+			}
+		}
+	}
+
 	rE := c.Rule("C25.errors", "no error result of a file, writer, reader or compaction operation is discarded in the storage packages, except best-effort cleanups on paths that already report a failure (frozen list)", 30)
 	exempt := func(fk string, callee string, how string, onErrPath bool) (bool, string) {
 		switch {
